@@ -17,7 +17,7 @@ func init() {
 		Explanation: "Structural necessary conditions of 'issued certificates respect issuer, role and lifetime constraints' in the PKI engine: " +
 			"(1) the certutil signing primitives (and crypto/x509.CreateCertificate) are called from package pki only by the tabled wrappers; the bundle they sign was produced by generateCreationBundle on its success edge and only the tabled CA-only fields are modified afterwards; the name/lifetime fields of CreationParameters have generateCreationBundle as their only writer in pki; " +
 			"(2) CreationParameters.IsCA is written only by generateCert/signCert from their isCA parameter; the leaf endpoints (issue, sign, sign-verbatim, ACME) pass the constant false, only root generation and sign-intermediate pass true; a leaf issuance always carries a non-nil signing bundle (a nil bundle would self-sign a CA); certutil sets IsCA only for a nil signing bundle / Params.IsCA and never copies a CSR's BasicConstraints extension; " +
-			"(3) in generateCreationBundle every non-nil bundle return crosses the accepting edge of validateCommonName, validateSerialNumber, validateNames (DNS and e-mail: the very values stored in the bundle), validateOtherSANs (error, bad name, bad OID), the IP-SAN role switch and CIDR loop, validateURISAN for every appended URI, validateUserId, and the success edges of getCertificateNotBefore/NotAfter; each refusing edge returns no bundle; key type/bits/usages/subject attributes of the bundle are read from the role; the validators themselves accept a name only behind a role switch and never bypass hostname/wildcard enforcement; " +
+			"(3) in generateCreationBundle every non-nil bundle return crosses the accepting edge of validateCommonName, validateSerialNumber, validateNames (DNS and e-mail: the very values stored in the bundle), validateOtherSANs (error, bad name, bad OID), the IP-SAN role switch and CIDR loop, validateURISAN for every appended URI, validateUserId, and the success edges of getCertificateNotBefore/NotAfter; each refusing edge returns no bundle; key type/bits/usages/subject attributes of the bundle are read from the role; the validators themselves accept a name only behind a role switch and never bypass hostname/wildcard enforcement; every suffix match in validateNames (localhost forms, display name, allowed domains) is anchored at a label boundary — the suffix operand leads with the constant '.' (partial: the rest of the string semantics is not decided); " +
 			"(4) getCertificateNotAfter compares the computed NotAfter with the issuer's on every path with an issuer, the exceeding arm succeeds only for permit/truncate (error default), truncate returns the issuer's NotAfter, the TTL is clamped to the role/mount maximum, and the role's forbid/ttl-limited/timestamp bounds are enforced; " +
 			"(5) serial numbers come from crypto/rand over at least 64 bits and every template's SerialNumber is that value; " +
 			"(6) certutil builds the template from the validated parameters (NotAfter, names), signs with the signing bundle's certificate and key, and copies CSR values only under UseCSRValues; " +
